@@ -348,7 +348,7 @@ func c58Gen(t *rapid.T) c58Case {
 		return rapid.SliceOfN(act, n, n).Draw(t, "acts")
 	})
 	return c58Case{
-		N:          rapid.IntRange(1, 4).Draw(t, "n"),
+		N:          rapid.IntRange(0, 4).Draw(t, "n"), // 0: no connection may ever be accepted
 		Prefill:    rapid.IntRange(0, 6).Draw(t, "prefill"),
 		Workers:    rapid.IntRange(2, 5).Draw(t, "workers"),
 		Sched:      rapid.SliceOfN(batch, 1, 40).Draw(t, "sched"),
@@ -378,7 +378,7 @@ type c58Worker struct {
 }
 
 func c58Prop(c c58Case, r *vp.Rec) error {
-	if c.N < 1 || c.N > 64 || c.Workers < 1 || c.Workers > 16 || c.Prefill < 0 || c.Prefill > 64 || c.Lag < 0 || c.Lag > 64 {
+	if c.N < 0 || c.N > 64 || c.Workers < 1 || c.Workers > 16 || c.Prefill < 0 || c.Prefill > 64 || c.Lag < 0 || c.Lag > 64 {
 		r.Discard("malformed case")
 		return nil
 	}
